@@ -201,9 +201,13 @@ pub(super) mod verif_export {
 
     // ------------------------------------------------------------------ name sanitising
 
-    fn ascii3() -> [u8; 3] {
-        let b: [u8; 3] = kani::any();
-        kani::assume(b[0] < 0x80 && b[1] < 0x80 && b[2] < 0x80);
+    fn ascii<const N: usize>() -> [u8; N] {
+        let b: [u8; N] = kani::any();
+        let mut i = 0;
+        while i < N {
+            kani::assume(b[i] < 0x80);
+            i += 1;
+        }
         b
     }
 
@@ -212,19 +216,27 @@ pub(super) mod verif_export {
     /// character."  Contract of `replace_space_and_control` (used for variable names): same length,
     /// every ASCII control character AND every space becomes '_', all other bytes are kept, and
     /// the result is `Cow::Owned` iff something was replaced (the caller reports the strict-mode
-    /// error iff it sees `Owned`).  ASCII strings of length 3.
-    #[kani::proof]
-    #[kani::unwind(6)]
-    fn replace_space_and_control_spec_len3() {
-        let b = ascii3();
+    /// error iff it sees `Owned`).  `with_space = false` restricts the input to space-free
+    /// strings (isolates the space clause).
+    fn replace_spec<const N: usize>(with_space: bool) {
+        let b = ascii::<N>();
+        let mut has_space = false;
+        let mut i = 0;
+        while i < N {
+            has_space |= b[i] == b' ';
+            i += 1;
+        }
+        if !with_space {
+            kani::assume(!has_space);
+        }
         // SAFETY: all bytes < 0x80
         let s = unsafe { core::str::from_utf8_unchecked(&b) };
         let r = replace_space_and_control(s);
         let out = r.as_bytes();
-        assert!(out.len() == 3, "length preserved");
+        assert!(out.len() == N, "length preserved");
         let mut any_bad = false;
         let mut i = 0;
-        while i < 3 {
+        while i < N {
             let bad = b[i].is_ascii_control() || b[i] == b' ';
             any_bad |= bad;
             if bad {
@@ -236,34 +248,35 @@ pub(super) mod verif_export {
         }
         let owned = matches!(r, Cow::Owned(_));
         assert!(owned == any_bad, "Owned (=> strict-mode error) iff something had to be replaced");
-        kani::cover!(b[0] < 0x80 && b[1] < 0x80 && b[2] < 0x80 && any_bad, "assumed region, replacement case");
+        kani::cover!(any_bad, "assumed region (ASCII [, no space]), replacement case");
         kani::cover!(!any_bad, "assumed region, clean case");
+        kani::cover!(b[N - 1].is_ascii_control() && b[0].is_ascii_control(), "first and last replaced");
         core::mem::forget(r);
     }
 
-    /// Same contract restricted to what the function demonstrably intends for control characters
-    /// only (no space in the input): isolates the space clause above.
+    /// full documented contract (controls AND spaces), ASCII strings of length 1
     #[kani::proof]
-    #[kani::unwind(6)]
+    #[kani::unwind(3)]
+    fn replace_space_and_control_spec_len1() {
+        replace_spec::<1>(true)
+    }
+    /// full documented contract (controls AND spaces), ASCII strings of length 2
+    #[kani::proof]
+    #[kani::unwind(4)]
+    fn replace_space_and_control_spec_len2() {
+        replace_spec::<2>(true)
+    }
+    /// control characters only (inputs without spaces), length 2
+    #[kani::proof]
+    #[kani::unwind(4)]
+    fn replace_control_only_spec_len2() {
+        replace_spec::<2>(false)
+    }
+    /// control characters only (inputs without spaces), length 3
+    #[kani::proof]
+    #[kani::unwind(5)]
     fn replace_control_only_spec_len3() {
-        let b = ascii3();
-        kani::assume(b[0] != b' ' && b[1] != b' ' && b[2] != b' ');
-        let s = unsafe { core::str::from_utf8_unchecked(&b) };
-        let r = replace_space_and_control(s);
-        let out = r.as_bytes();
-        assert!(out.len() == 3);
-        let mut any_bad = false;
-        let mut i = 0;
-        while i < 3 {
-            let bad = b[i].is_ascii_control();
-            any_bad |= bad;
-            assert!(out[i] == if bad { b'_' } else { b[i] });
-            i += 1;
-        }
-        assert!(matches!(r, Cow::Owned(_)) == any_bad);
-        kani::cover!(any_bad && b[0] != b' ' && b[1] != b' ' && b[2] != b' ' && b[0] < 0x80 && b[1] < 0x80 && b[2] < 0x80, "assumed region, replacement case");
-        kani::cover!(b[0].is_ascii_control() && b[1].is_ascii_control() && b[2].is_ascii_control(), "all three replaced");
-        core::mem::forget(r);
+        replace_spec::<3>(false)
     }
 
     /// Diagram name: "In the diagram name, control characters will be replaced by spaces."
@@ -272,7 +285,7 @@ pub(super) mod verif_export {
     #[kani::proof]
     #[kani::unwind(6)]
     fn write_replacing_control_spec_len3() {
-        let b = ascii3();
+        let b = ascii::<3>();
         let s = unsafe { core::str::from_utf8_unchecked(&b) };
         let mut sink = Sink::<3>::new();
         let r = write_replacing_control(&mut sink, s);
@@ -292,7 +305,7 @@ pub(super) mod verif_export {
                 assert!(false, "no error on an infallible sink");
             }
         }
-        kani::cover!(any_bad && b[0] < 0x80 && b[1] < 0x80 && b[2] < 0x80, "assumed region, replacement case");
+        kani::cover!(any_bad, "assumed region (ASCII), replacement case");
         kani::cover!(!any_bad, "clean case");
     }
 
